@@ -4,3 +4,4 @@ CONSTANTS
   NotifCap = 10
   UnderRepl = TRUE
   WatchSendUnderLock = FALSE
+  InlineNodeChanges = FALSE
